@@ -4,6 +4,7 @@ import (
 	"bytes"
 	"encoding/binary"
 	"fmt"
+	"math"
 	"math/rand/v2"
 	"net"
 	"sync"
@@ -108,6 +109,8 @@ type expSession struct {
 	writeCalls []writeCall
 	send2Ch    chan send2Req
 	scratch    []entities.InfoElementWithValue // the application's re-used element list
+	pool       map[string][]pooledVal          // application-owned address values, handed in again and again
+	persist    map[int][]entities.InfoElementWithValue
 	// C01: called when the application reaches a "cstall" op
 	onConsumerStall func(d time.Duration)
 }
@@ -659,6 +662,10 @@ func (s *expSession) opData1(i int, op plan.Op) {
 	if ti == nil || ti.Ambiguous {
 		return
 	}
+	if op.C%4 == 2 && len(op.F) == 0 && op.S != "v2" && ti.Sent {
+		s.opDataReuse(i, op, ti)
+		return
+	}
 	r := rand.New(rand.NewPCG(uint64(op.C), 0xda7a))
 	nrec := int(op.B)
 	if nrec < 1 {
@@ -783,6 +790,141 @@ func (s *expSession) opData1(i int, op plan.Op) {
 	}
 	c.MsgLen = total
 	s.send(c)
+}
+
+// opDataReuse is the other way applications use the entities API: the element objects of a template
+// are created once and given new values through their setters for every record (one record per set,
+// ResetSet in between); address and MAC values are application-owned byte slices that are handed in
+// as they are, again and again, to whichever element needs that value. The library stores such a
+// slice as the element's value; it has no business writing through it.
+func (s *expSession) opDataReuse(i int, op plan.Op, ti *tmplInfo) {
+	slot := int(op.A)
+	r := rand.New(rand.NewPCG(uint64(op.C), 0xda7d))
+	specs := ti.Specs
+	pooled := func(sp elemSpec) bool {
+		return sp.Type == entities.Ipv4Address || sp.Type == entities.Ipv6Address || sp.Type == entities.MacAddress
+	}
+	if s.pool == nil {
+		s.pool, s.persist = map[string][]pooledVal{}, map[int][]entities.InfoElementWithValue{}
+	}
+	wires := make([][]byte, len(specs))
+	shared := make([][]byte, len(specs))
+	for k, sp := range specs {
+		if !pooled(sp) {
+			wires[k] = genWire(r, sp, int(op.D))
+			continue
+		}
+		key := fmt.Sprintf("%d/%d", sp.Type, sp.Len)
+		pv := s.pool[key]
+		if len(pv) < 3 {
+			w := genWire(r, sp, 0)
+			pv = append(pv, pooledVal{app: w, pristine: append([]byte(nil), w...)})
+			s.pool[key] = pv
+		}
+		v := pv[r.IntN(len(pv))]
+		wires[k], shared[k] = v.pristine, v.app
+	}
+	els := s.persist[slot]
+	if els == nil {
+		els = make([]entities.InfoElementWithValue, len(specs))
+		for k, sp := range specs {
+			ie, err := registry.GetInfoElement(sp.Name, sp.Ent)
+			if err != nil {
+				panic(err)
+			}
+			if shared[k] != nil {
+				switch sp.Type {
+				case entities.MacAddress:
+					els[k] = entities.NewMacAddressInfoElement(ie, net.HardwareAddr(shared[k]))
+				default:
+					els[k] = entities.NewIPAddressInfoElement(ie, net.IP(shared[k]))
+				}
+			} else {
+				els[k] = mkElement(sp, ie, wires[k])
+			}
+		}
+		s.persist[slot] = els
+	} else {
+		for k, sp := range specs {
+			setElement(els[k], sp, wires[k], shared[k])
+		}
+	}
+	s.env.Count("probe.element_objects_reused_with_setters", 1)
+	s.set.ResetSet()
+	if err := s.set.PrepareSet(entities.Data, ti.ID); err != nil {
+		panic(err)
+	}
+	var err error
+	if op.S == "extra" {
+		err = s.set.AddRecordWithExtraElements(els, 2, ti.ID)
+	} else {
+		err = s.set.AddRecord(els, ti.ID)
+	}
+	if err != nil {
+		panic(err)
+	}
+	total := 16 + 4
+	for k := range specs {
+		total += encodedLen(specs[k], wires[k])
+	}
+	c := callRec{Op: i, Kind: "data", Slot: slot, Valid: true, MsgLen: total}
+	if total > 65535 {
+		c.Valid, c.Expect, c.Why = false, "error", fmt.Sprintf("message would be %d bytes", total)
+	}
+	c.Records = []sentRecord{{Wires: wires}}
+	s.send(c)
+}
+
+type pooledVal struct{ app, pristine []byte }
+
+// setElement gives el the value with wire form w through its typed setter; shared (if not nil) is
+// the application-owned slice that is handed in for slice-valued types.
+func setElement(el entities.InfoElementWithValue, sp elemSpec, w, shared []byte) {
+	u := func() uint64 {
+		var b [8]byte
+		copy(b[8-len(w):], w)
+		return binary.BigEndian.Uint64(b[:])
+	}
+	switch sp.Type {
+	case entities.OctetArray:
+		el.SetOctetArrayValue(append([]byte(nil), w...))
+	case entities.Unsigned8:
+		el.SetUnsigned8Value(uint8(u()))
+	case entities.Unsigned16:
+		el.SetUnsigned16Value(uint16(u()))
+	case entities.Unsigned32, entities.DateTimeSeconds:
+		el.SetUnsigned32Value(uint32(u()))
+	case entities.Unsigned64, entities.DateTimeMilliseconds:
+		el.SetUnsigned64Value(u())
+	case entities.Signed8:
+		el.SetSigned8Value(int8(u()))
+	case entities.Signed16:
+		el.SetSigned16Value(int16(u()))
+	case entities.Signed32:
+		el.SetSigned32Value(int32(u()))
+	case entities.Signed64:
+		el.SetSigned64Value(int64(u()))
+	case entities.Float32:
+		el.SetFloat32Value(math.Float32frombits(uint32(u())))
+	case entities.Float64:
+		el.SetFloat64Value(math.Float64frombits(u()))
+	case entities.Boolean:
+		el.SetBooleanValue(w[0] == 1)
+	case entities.MacAddress:
+		if shared == nil {
+			shared = append([]byte(nil), w...)
+		}
+		el.SetMacAddressValue(net.HardwareAddr(shared))
+	case entities.Ipv4Address, entities.Ipv6Address:
+		if shared == nil {
+			shared = append([]byte(nil), w...)
+		}
+		el.SetIPAddressValue(net.IP(shared))
+	case entities.String:
+		el.SetStringValue(string(w))
+	default:
+		panic("setElement: unsupported type")
+	}
 }
 
 // illTyped returns a replacement element whose value cannot be encoded for its
